@@ -30,7 +30,7 @@ CLAIMED = {
         note="PARTIAL: the four connection loops (threads/tokio/sockets), response ordering, pipelines and the concrete built-in handler kinds with real JSON/BEVE bodies are outside; a change confined to a loop is not detected. Queries are 0-2 symbolic bytes restricted to ASCII or >= 0xf8 (the domain on which the from_utf8 stub - an ASCII check - is exact; the real validator is out of reach); the handler outcome is a per-instance constant; lookup stubbed to '/a registered' (lookup is C07); error text stubbed.",
         ref="DESIGN.md §4 C03"),
     "C04": dict(
-        text="Only the schedule-independent safety clause: every client funnels each result through validate_response(expected_id, resp) on its return path; for a fully symbolic response header, Ok implies id == expected (and version, ec), so no call can return another call's response under any interleaving or reply order. Plus two small schedule-independent facts of the blocking client: ids issued on one connection (through any clone) are pairwise distinct from any counter state including the 2^64 wrap (4 consecutive ids), and a non-empty batch always has between 1 and min(requests, 64) workers whatever the OS reports as parallelism.",
+        text="Only the schedule-independent safety clause: every client funnels each result through validate_response(expected_id, resp) on its return path; for a fully symbolic response header, Ok implies id == expected (and version, ec), so no call can return another call's response under any interleaving or reply order. Plus two small schedule-independent facts of the blocking client: ids issued on one connection (through any clone) are pairwise distinct from any counter state including the 2^64 wrap (4 consecutive ids), and a non-empty batch always has at least one worker whatever the OS reports as parallelism.",
         note="PARTIAL: delivery of the matching response, unknown-id/duplicate/notify routing and the positional fill of batch results live in threads/tasks/sockets and are outside; a mutation in a response loop is not detected; AsyncClient / WebSocketClient values cannot be constructed under Kani, so their id counters are not exercised.",
         ref="DESIGN.md §4 C04"),
     "C07": dict(
